@@ -78,7 +78,7 @@ type loopCase struct {
 	Iters   int
 }
 
-func runLoops(c loopCase) {
+func runLoops(c loopCase) error {
 	s := mapz.NewSafeKV[int, int](0)
 	var bodies []func()
 	for gi, ms := range c.Methods {
@@ -91,7 +91,13 @@ func runLoops(c loopCase) {
 			}
 		})
 	}
-	conc.RunRaced(bodies)
+	if p := conc.RunRaced(bodies); len(p) > 0 {
+		return fmt.Errorf("panic in a goroutine: %v", p[0])
+	}
+	if m := argDamage.Swap(nil); m != nil {
+		return fmt.Errorf("%s", *m)
+	}
+	return nil
 }
 
 func TestRacedLoops(t *testing.T) {
@@ -112,7 +118,10 @@ func TestRacedLoops(t *testing.T) {
 		js, _ := json.Marshal(c)
 		restoreProcs, procsClass := pb.FlipProcs(js)
 		saveCurrent("safekv_raced_loops", js)
-		runLoops(c)
+		if err := runLoops(c); err != nil {
+			st.Violation("raced-loops", js, err)
+			t.Fatalf("loops %s: %v", js, err)
+		}
 		rec := &pb.Rec{}
 		snap, wr := false, false
 		for gi, ms := range c.Methods {
@@ -152,7 +161,9 @@ func init() {
 			return fmt.Errorf("BADREPLAY: %v", err)
 		}
 		for i := 0; i < 20; i++ {
-			runLoops(c)
+			if err := runLoops(c); err != nil {
+				return err
+			}
 		}
 		return nil
 	})
